@@ -188,6 +188,16 @@ def check():
                            any(t == ("sym", "definition") or t == ("addr", ("sym", "definition")) for a in fr[0][2] for t in ms.subterms(a)))
         structural("rename_variable: edits the binder's identifier and every reference", seen_decl and seen_ref)
 
+    # rename collects its edit set through find_references: every edit range is a location that function
+    # records (the identifier of a variable bound to the definition), decided by definition equality
+    import props.c17 as c17
+    try:
+        c17.find_references_lemmas(o, L, S, E, ML, ML.one(r"^(lsp::handlers::)?find_references$"), structural, lambda name, model: bad.append(name))
+    except KeyError as ex:
+        o.inconc("MIR: %s" % str(ex)[-200:])
+    if not c17.identity_lemmas(o, L, S, E, lambda name, model: bad.append(name)):
+        return o.finish()
+
     o.samples = [{"query": q["name"], "verdict": q["verdict"]} for q in o.queries[:12]]
     import lspcorpus
     rdir = new_replay_dir("C18", "lsp-corpus")
